@@ -72,10 +72,10 @@ func TestC07e2e(t *testing.T) {
 	n := cfg.N(24, 800)
 	var pairs, unspec int64
 	for i := 0; i < n; i++ {
-		if !cfg.Mine(i) {
+		seed := cfg.CaseSeed("C07e2e", i)
+		if !cfg.Want(i, seed) {
 			continue
 		}
-		seed := cfg.CaseSeed("C07e2e", i)
 		rig.RunCase(t, seed, rig.Opts{Tick: time.Microsecond}, func(e *rig.Env) {
 			r := e.Rand
 			topic := "projects/p/topics/t"
@@ -167,10 +167,10 @@ func TestC08rpc(t *testing.T) {
 	n := cfg.N(8, 200)
 	var accepted, rejected int64
 	for i := 0; i < n; i++ {
-		if !cfg.Mine(i) {
+		seed := cfg.CaseSeed("C08rpc", i)
+		if !cfg.Want(i, seed) {
 			continue
 		}
-		seed := cfg.CaseSeed("C08rpc", i)
 		rig.RunCase(t, seed, rig.Opts{}, func(e *rig.Env) {
 			r := e.Rand
 			topic := "projects/p/topics/t"
